@@ -17,6 +17,7 @@ import Knut.Driver.C13
 import Knut.Driver.C14
 import Knut.Driver.C05
 import Knut.Driver.GoSem
+import Knut.Driver.GoSemTree
 import Knut.Driver.C09Cmd
 /-! Line-protocol driver over the executable model: one request per line (`op field*`), one answer line.
 Each property contributes a handler module `Knut/Driver/<X>.lean`; add it to `handlers`. -/
@@ -42,6 +43,7 @@ def handlers : List (List String → Option String) := [
   Knut.Driver.Balance.handle,
   Knut.Driver.Load.handle,
   Knut.Driver.GoSem.handle,
+  Knut.Driver.GoSemTree.handle,
   Knut.Driver.C09Cmd.handle
 ]
 
